@@ -147,6 +147,36 @@ static void check_exact(const Universe& U, const Spec& s, const bj::object& e, s
       count("exact.integral_p");
     }
   }
+  // norms (compute_norm_of_landscape): L^1 = sum of the integrals of |f_k| (judged when |f| is piecewise linear on the
+  // quarter lattice), L^2 = sqrt of the sum of the integrals of f_k^2, sup = max of sup |f_k|; the stored function may
+  // be negative (differences, negative multiples)
+  {
+    const std::vector<long> int1 = longs(e.at("int1")), sup = longs(e.at("sup"));
+    const bool q = e.at("q").as_bool();
+    for (auto& nv : vs) {
+      PL& L = nv.second;
+      bj::object act{{"expr", s.json}, {"variant", nv.first}, {"form", "exact"}};
+      crash_ctx().where = "exact norm " + bj::serialize(bj::value(act));
+      Dev dv("exact.norm", act);
+      if (q) {
+        const double got = L.compute_norm_of_landscape(1.0);
+        if (!near(got, sum(int1), 64 * den)) dv.add("p=1", sum(int1), jnum(got * 64 * den));
+        count("exact.norm");
+      }
+      {
+        const double got = L.compute_norm_of_landscape(2.0);
+        if (!near(got * got, sum(int2), 1536 * den * den)) dv.add("p=2 (squared)", sum(int2), jnum(got * got * 1536 * den * den));
+        count("exact.norm");
+      }
+      {
+        long m = 0;
+        for (long x : sup) m = std::max(m, x);
+        const double got = L.compute_norm_of_landscape(SUP);
+        if (!same(got, m, 8 * den, ex)) dv.add("p=inf", m, jnum(got * 8 * den));
+        count("exact.norm");
+      }
+    }
+  }
   if (s.op != "land") return;
   PL& L = vs[0].second;
   const long nlev = e.at("nlev").to_number<long>();
